@@ -27,6 +27,7 @@ type genProfile struct {
 	heavy    bool
 	gasLim   uint64 // genesis gas limit of the world (0 = default 30M)
 	wkRate   int    // percent of blocks built through the worker's candidate loop
+	plain    bool   // (H scenarios) transfers only
 }
 
 func genWorld(r *vh.RNG) ([]string, *genProfile) {
